@@ -18,8 +18,9 @@
 //
 // Termination (child processes, child.go): pdfgen documents whose outlines carry /Next, /Prev,
 // /First, /Parent, /Last cycles and self references, absurd /Count values, deep /First chains
-// and long /Next chains are read with api.Bookmarks and api.ExportBookmarksFile; each call must
-// return (value or error) without panic within the CPU bound measured by the kernel.
+// and long /Next chains are read with api.Bookmarks, api.ExportBookmarksFile and (on the context
+// as read, without validation) pdfcpu.BookmarksForOutlineItem; each call must return (value or
+// error) without panic within the CPU bound measured by the kernel.
 package main
 
 import (
@@ -542,7 +543,7 @@ func judgeHostile(t *vk.T, hc hostileCase, desc string, res []callResult) {
 			if r.CPUms > slowCallMs {
 				t.Violate("termination/cpu/"+where, what, rc)
 			}
-			if hc.Attack == "Control" && r.Outcome != "ok" {
+			if hc.Attack == "Control" && r.Outcome != "ok" && a != "BookmarksForOutlineItem" {
 				t.Violate("termination/control-rejected/api="+a, what, rc)
 			}
 		case "panic":
@@ -573,7 +574,7 @@ func main() {
 		t.Assume("titles contain no C0 control characters and are not empty (pdfcpu drops control bytes from titles and skips untitled items when reading)")
 		t.Assume("colour components are compared within 1e-6 of their float32 value (pdfcpu holds float32, writes 12 decimals)")
 		t.Assume("/Count values are observed (counters) but not judged: the property names titles, pages, nesting, order, colour, bold, italic")
-		t.Assume(fmt.Sprintf("termination: CPU bound %d s per child batch of <= %d documents (2 calls each; normal cost: milliseconds); memory bound %d MiB; a wall-clock watchdog of %v without reaching the CPU bound is inconclusive", cpuBoundSec, batchSize, memBoundByte>>20, wallWatchdog))
+		t.Assume(fmt.Sprintf("termination: CPU bound %d s per child batch of <= %d documents (3 calls each; normal cost: milliseconds); memory bound %d MiB; a wall-clock watchdog of %v without reaching the CPU bound is inconclusive", cpuBoundSec, batchSize, memBoundByte>>20, wallWatchdog))
 		t.Assume("pdfgen outlines that are not page-ordered are exported but not re-imported (ImportBookmarks refuses them by design)")
 
 		if t.Replay != nil {
